@@ -204,9 +204,17 @@ def main(argv=None):
         print(json.dumps({"violations": res["violations"],
                           "inconclusive": res.get("inconclusive")},
                          indent=1)[:6000])
-        if res["violations"]:
+        known, _ = load_known(prop)
+        kk = {e["key"] for e in known}
+        unknown = [v for v in res["violations"] if v["key"] not in kk]
+        for v in res["violations"]:
+            if v["key"] in kk:
+                print(f"KNOWN-FINDING: property={prop} key={v['key']}")
+        if unknown:
             print(f"VIOLATION property={prop} replay={args.replay}")
             return 1
+        if res["violations"]:
+            return 0
         print(f"replay: no violation property={prop}")
         return 0
 
